@@ -101,7 +101,7 @@ PROPS = {
         "trusted_base": [],
     },
     "C03": {
-        "lean_modules": ["Perp.Props.Dispatch", "Perp.Props.EngineMoney"],
+        "lean_modules": ["Perp.Props.Dispatch", "Perp.Props.EngineMoney", "Perp.Props.G9Restr", "Perp.Props.G9Perm", "Perp.Props.WorldMore"],
         "runs": lambda tier, seed: world_runs(tier, seed),
         "rule": WORLD_RULE, "assumptions": WORLD_ASSUMPTIONS,
     },
@@ -166,7 +166,7 @@ PROPS = {
         "rule": WORLD_RULE, "assumptions": WORLD_ASSUMPTIONS,
     },
     "C16": {
-        "lean_modules": ["Perp.Props.EngineGuards", "Perp.Props.WorldInv"],
+        "lean_modules": ["Perp.Props.EngineGuards", "Perp.Props.WorldInv", "Perp.Props.G9Restr", "Perp.Props.WorldMore"],
         "runs": lambda tier, seed: world_runs(tier, seed),
         "rule": WORLD_RULE, "assumptions": WORLD_ASSUMPTIONS,
     },
